@@ -16,10 +16,12 @@ VERIF = "/verif"
 REPO = "/repo"
 SEEDED = os.path.join(VERIF, "seeded")
 ENV = dict(os.environ, GOFLAGS="-mod=mod", GOPROXY="off", GOSUMDB="off", GOTOOLCHAIN="local")
+# checks run against a seeded change never touch the committed evidence / replays
+RUN_ENV = dict(ENV, VERIF_OUT_DIR="/tmp/mut/checkout")
 
 
-def sh(cmd, cwd=None, timeout=3600):
-    p = subprocess.run(cmd, shell=True, cwd=cwd, env=ENV, stdout=subprocess.PIPE, stderr=subprocess.STDOUT, timeout=timeout, text=True)
+def sh(cmd, cwd=None, timeout=3600, env=None):
+    p = subprocess.run(cmd, shell=True, cwd=cwd, env=env or ENV, stdout=subprocess.PIPE, stderr=subprocess.STDOUT, timeout=timeout, text=True)
     return p.returncode, p.stdout
 
 
@@ -93,7 +95,8 @@ def run(mid, props, tier="quick", seed=None):
         for p in props:
             t0 = time.time()
             env = "VERIF_SEED=%s " % seed if seed is not None else ""
-            rc, o = sh("%s./bin/verif check %s --tier %s" % (env, p, tier), VERIF, timeout=7200)
+            os.makedirs("/tmp/mut/checkout", exist_ok=True)
+            rc, o = sh("%s./bin/verif check %s --tier %s" % (env, p, tier), VERIF, timeout=7200, env=RUN_ENV)
             viol = [l for l in o.splitlines() if l.startswith("VIOLATION")]
             sig = [l for l in o.splitlines() if l.startswith("verif: " + p + "/")]
             out[p] = {"exit": rc, "violation": bool(viol), "signature": sig[0][7:] if sig else "", "wall_s": round(time.time() - t0, 1)}
